@@ -244,3 +244,9 @@ func firstShard() bool {
 
 func optOut(b *bytes.Buffer) bcl.Option { return bcl.OptOutput(b) }
 func optLog(b *bytes.Buffer) bcl.Option { return bcl.OptLogger(b) }
+
+func mustRead(path string) string {
+	b, err := os.ReadFile(path)
+	must(err)
+	return string(b)
+}
